@@ -10,13 +10,16 @@ namespace Dht
 exactly the token stored with that member. -/
 theorem C16.announce_targets_subset_closest (closest : List KElem) :
     ∀ o ∈ announceClosest closest, ∃ e ∈ closest, e.addr = o.dst ∧ e.data = some o.token := by
-  sorry
+  intro o ho
+  exact (mem_announceClosest closest o).mp ho
 
 /-- … and every member of the closest set of an announce traversal carries a token, so all of them are announced to. -/
 theorem C16.every_member_announced (target : Id) (nf : Cand → Bool) (evs : List TravEv) (s : Trav)
     (h : Trav.exec (announceCfg target nf) {} evs = some s) :
     (announceClosest s.closest).length = s.closest.length := by
-  sorry
+  apply announceClosest_length_of_all_some
+  intro e he
+  exact (C02.members_responded_and_pass_filters _ evs s h e he).2.2
 
 /-- The token sent to a node is the token that same node returned in this
 traversal: each announce stems from a response of this traversal that came from
@@ -25,13 +28,17 @@ theorem C16.token_is_own (target : Id) (nf : Cand → Bool) (evs : List TravEv) 
     (h : Trav.exec (announceCfg target nf) {} evs = some s) :
     ∀ o ∈ announceClosest s.closest, ∃ m ∈ offered (announceCfg target nf) {} evs,
       m.addr = o.dst ∧ m.data = some o.token ∧ nf ⟨some m.id, m.addr⟩ = true := by
-  sorry
+  intro o ho
+  obtain ⟨e, he, ha, hd⟩ := (mem_announceClosest s.closest o).mp ho
+  have hm := C02.members_responded_and_pass_filters _ evs s h e he
+  exact ⟨e, hm.1, ha, hd, hm.2.1⟩
 
 /-- At most K announces, to pairwise different members. -/
 theorem C16.at_most_k (target : Id) (nf : Cand → Bool) (evs : List TravEv) (s : Trav)
     (h : Trav.exec (announceCfg target nf) {} evs = some s) :
     (announceClosest s.closest).length ≤ (announceCfg target nf).k ∧ (announceCfg target nf).k = 8 := by
-  sorry
+  refine ⟨?_, rfl⟩
+  exact Nat.le_trans (announceClosest_length_le _) (C02.closest_le_K _ evs s h).1
 
 /-- The acceptance predicate used for trace validation implies the property:
 every announce goes to a responder that supplied exactly that token, no two
@@ -40,7 +47,110 @@ theorem C16.allowed_sound (target : Id) (k : Nat) (nf : Cand → Bool) (resps : 
     (h : announceAllowed target k nf resps outs = true) :
     (∀ o ∈ outs, ∃ r ∈ resps, r.addr = o.dst ∧ r.token = some o.token ∧ nf ⟨some r.id, r.addr⟩ = true) ∧
     outs.length ≤ k := by
-  sorry
+  have h' : (outs.all (fun o => (announceElig nf resps).any (fun e => o.dst == e.addr && some o.token == e.data)) &&
+      (outs.map (·.dst.strKey)).eraseDups.length == outs.length &&
+      outs.length == min k (announceElig nf resps).length) = true := by
+    unfold announceAllowed at h
+    simp only [Bool.and_eq_true] at h ⊢
+    exact h.1
+  simp only [Bool.and_eq_true, List.all_eq_true, List.any_eq_true, beq_iff_eq] at h'
+  obtain ⟨⟨h1, _⟩, h3⟩ := h'
+  refine ⟨?_, by omega⟩
+  intro o ho
+  obtain ⟨e, he, ha, hd⟩ := h1 o ho
+  obtain ⟨r, hr, rfl, _, hnf⟩ := mem_announceElig nf resps e he
+  exact ⟨r, hr, ha.symm, hd.symm, hnf⟩
+
+/-- Strengthening of `allowed_sound`: no two accepted announces go to one address. -/
+theorem C16.allowed_distinct (target : Id) (k : Nat) (nf : Cand → Bool) (resps : List GpResp) (outs : List AnnounceOut)
+    (h : announceAllowed target k nf resps outs = true) :
+    (outs.map (·.dst.strKey)).Nodup := by
+  have h' : ((outs.map (·.dst.strKey)).eraseDups.length == outs.length) = true := by
+    unfold announceAllowed at h
+    simp only [Bool.and_eq_true] at h ⊢
+    exact h.1.1.2
+  rw [beq_iff_eq] at h'
+  apply nodup_of_length_eraseDups
+  rw [h', List.length_map]
+
+/-- Strengthening of `at_most_k` ("pairwise different members"): the announces
+correspond one for one, in order, to the members of the closest set, which has
+no key twice. -/
+theorem C16.announces_are_members (target : Id) (nf : Cand → Bool) (evs : List TravEv) (s : Trav)
+    (h : Trav.exec (announceCfg target nf) {} evs = some s) :
+    (announceClosest s.closest).map (·.dst) = s.closest.map (·.addr) ∧
+    KNN.nodupKeys s.closest = true := by
+  refine ⟨?_, (C02.closest_le_K _ evs s h).2.2⟩
+  apply announceClosest_dsts_of_all_some
+  intro e he
+  exact (C02.members_responded_and_pass_filters _ evs s h e he).2.2
+
+/-! ## Non-vacuity -/
+
+namespace C16Ex
+open TravEx
+
+/-- Three responders at distances 3, 5, 1; the one at distance 5 supplied no token. -/
+def resps : List GpResp :=
+  [⟨addr 1, nid 3, some [1]⟩, ⟨addr 2, nid 5, none⟩, ⟨addr 4, nid 1, some [2]⟩]
+
+/-- Four responders with tokens at distances 3, 5, 1, 7. -/
+def resps4 : List GpResp :=
+  [⟨addr 1, nid 3, some [1]⟩, ⟨addr 2, nid 5, some [9]⟩, ⟨addr 4, nid 1, some [2]⟩, ⟨addr 3, nid 7, some [7]⟩]
+
+def tgt : Id := List.replicate 20 0
+def nfAll : Cand → Bool := fun _ => true
+
+end C16Ex
+
+open C16Ex TravEx in
+/-- Accepted: K = 2, the two nearest token holders are announced to, each with its own token. -/
+example : announceAllowed tgt 2 nfAll resps [⟨addr 4, [2]⟩, ⟨addr 1, [1]⟩] = true := by
+  decide +kernel
+
+open C16Ex TravEx in
+/-- Accepted with a real selection: of four token holders the two nearest (distances 1 and 3). -/
+example : announceAllowed tgt 2 nfAll resps4 [⟨addr 4, [2]⟩, ⟨addr 1, [1]⟩] = true := by
+  decide +kernel
+
+open C16Ex TravEx in
+/-- Rejected: the tokens of the two nodes are swapped. -/
+example : announceAllowed tgt 2 nfAll resps [⟨addr 4, [1]⟩, ⟨addr 1, [2]⟩] = false := by
+  decide +kernel
+
+open C16Ex TravEx in
+/-- Rejected: announce to the responder that supplied no token. -/
+example : announceAllowed tgt 2 nfAll resps [⟨addr 4, [2]⟩, ⟨addr 2, []⟩] = false := by
+  decide +kernel
+
+open C16Ex TravEx in
+/-- Rejected: not the K nearest (distance 5 chosen over distance 3). -/
+example : announceAllowed tgt 2 nfAll resps4 [⟨addr 4, [2]⟩, ⟨addr 2, [9]⟩] = false := by
+  decide +kernel
+
+open C16Ex TravEx in
+/-- Rejected: the same node twice. -/
+example : announceAllowed tgt 2 nfAll resps [⟨addr 4, [2]⟩, ⟨addr 4, [2]⟩] = false := by
+  decide +kernel
+
+open C16Ex TravEx in
+/-- Rejected: fewer announces than eligible responders allow. -/
+example : announceAllowed tgt 2 nfAll resps [⟨addr 4, [2]⟩] = false := by
+  decide +kernel
+
+open TravEx in
+/-- The hypotheses of the traversal theorems are met by a concrete announce
+traversal (the lookup `TravEx.evs` under the announce configuration): the
+responder without a token is not offered, the other two are announced to with
+their own tokens. -/
+example : (Trav.exec (announceCfg cfg.target cfg.nodeFilter) {} evs).map (fun s => announceClosest s.closest) =
+    some [⟨addr 4, [2]⟩, ⟨addr 1, [1]⟩] := by
+  decide +kernel
+
+open TravEx in
+example : offered (announceCfg cfg.target cfg.nodeFilter) {} evs =
+    [⟨nid 3, addr 1, some [1]⟩, ⟨nid 1, addr 4, some [2]⟩] := by
+  decide +kernel
 
 /-- T1: the announce goroutine waits for stalled, stops the traversal, waits for
 stopped, announces (if asked), marks the announce finished and closes the
